@@ -228,7 +228,10 @@ SCOPES = ['', '', 's', 's/t', 't', 'u/s']
 
 @st.composite
 def strategy(draw):
-  shape = draw(G.shapes())
+  shape = draw(G.shapes(kinds=('function', 'function', 'class_init', 'class_new', 'method',
+                               'callobj', 'boundmethod')))
+  if shape['kind'] in ('callobj', 'boundmethod') and shape['api'] == 'configurable':
+    shape['api'] = 'external'
   defaulted = shape['dflt'] + shape['kwdflt']
   shape['required_defaults'] = draw(st.lists(st.sampled_from(defaulted), unique=True)
                                     if defaulted else st.just([]))
